@@ -37,7 +37,8 @@ AWKWARD = ["Data", "Encrypt", "Protocol", "Net2", "MapX", "Pub9", "Enum", "Int",
            "Object", "Tuple", "Zip", "Isinstance", "Setattr", "Hasattr", "Any", "All", "Iter", "Next", "Super"]
 COMMENT_BITS = ["The thing", "used for <b>stuff</b> & more", "it's > 9", "line one\nline two", "100% of 'it'", "a < b", "§ ünï ©"]
 AWKWARD_COMMENTS = ["The thing", 'Shown in the log as "quoted"', "ends with a backslash \\", "kept in C:\\new\\x files, see \\u and \\N", 'three quotes """ inside',
-                    "tab\there", "it's the 'last' one'", '"', "\\", "{braces} %s %(name)s", "back\\slash inside"]
+                    "tab\there", "it's the 'last' one'", '"', "\\", "{braces} %s %(name)s", "back\\slash inside",
+                    'four """" and five """"" quotes in a row', "three single \'\'\' quotes", 'ends with three """', '""" starts with three', 'a backslash before quotes \\"""']
 INT_KINDS = ["byte", "char", "short", "three", "int"]
 
 
@@ -98,7 +99,10 @@ class SpecGen:
         if c == COMMENT_BITS[0]:
             # free text that is awkward inside a Python string literal takes turns with the plain one (chosen by a
             # counter, so that the random stream - and with it every generated tree - stays what it was)
-            self._comments = getattr(self, "_comments", 0) + 1
+            if not hasattr(self, "_comments"):
+                # every tree starts somewhere else in the list (derived from the generator state without drawing)
+                self._comments = zlib.crc32(repr(self.rng.getstate()[1][:3]).encode())
+            self._comments += 1
             c = AWKWARD_COMMENTS[self._comments % len(AWKWARD_COMMENTS)]
         return c
 
